@@ -248,6 +248,10 @@ def c10_case(res: Result, st: steps.Steps, cls: type, reader, data: bytes, kind:
         ratio = used / (len(data) + 4)
         name = type(exc).__name__
         outcomes[name] = outcomes.get(name, 0) + 1
+        if src.observed_events():
+            # e.g. a negative read size: on a live stream that means "read until EOF", i.e. blocking and swallowing later messages
+            res.violation(f"source-misuse:{src.observed_events()[0][0]}",
+                          f"{walk.class_path(cls)}: before raising {name} the decoder misused the source: {src.observed_events()[:3]}", payload())
         _c10_other_source(res, st, cls, reader, data, ("raised", name), payload)
         return ratio
     except steps.StepBudgetExceeded:
